@@ -100,3 +100,13 @@ TECHNIQUE.update({
     "C14": "loop-carried-state rule over natural loops of the MIR, constant-arm rule, panic-site audit",
     "C15": "guarded reachability of the accepting return (world-set dataflow) + backward slices of both comparison operands; constant agreement across five sites",
 })
+
+PROPS.update({
+    "C11": {
+        "decided": "Daemon-keeps-serving and id-freshness clauses: no DaemonError variant that forward_pdu or process_primitive (and what they call synchronously, including the From conversions) can construct is matched by an arm of manage_transactions that returns Err or sets the terminate flag; every potentially panicking construct on the daemon task's routing path is discharged or justified (audit as C06-P1; task bodies handed to tokio::spawn are isolated by the runtime and excluded); Daemon.sequence_num is written only through VariableID::get_and_increment in the Put arm, the id built from its result is the one sent back and inserted in the routing table, get_and_increment returns the pre-increment value and increment advances every width by exactly 1; the workspace crates have no static mut / interior-mutable static.",
+        "not_decided": "Per-transaction outcomes under interleaving (each delivers its own file), limits ending stray receive transactions (liveness), isolation through the shared filestore directory.",
+    },
+})
+TECHNIQUE.update({
+    "C11": "error-variant flow (constructible variants vs. classification of match arms in the MIR), panic-site audit of the daemon task's call graph, single-writer rule for the sequence counter",
+})
